@@ -1,6 +1,7 @@
 //! vh_pix — C21/C20/C18: native frames, RLE Lossless decoding, encapsulation
 //! (dicom-pixeldata, dicom-encoding, dicom-core fragments, transfer-syntax-registry adapters).
 mod obj;
+mod c18;
 mod c20;
 mod c21;
 use vhc::*;
@@ -8,6 +9,7 @@ use vhc::*;
 fn main() {
     run_main(
         |prop, ctx| match prop {
+            "C18" => Some(c18::cases(ctx)),
             "C20" => Some(c20::cases(ctx)),
             "C21" => Some(c21::cases(ctx)),
             _ => None,
